@@ -5,7 +5,7 @@ items' *source bytes* (with the mechanical rewrite edits R1..R11) + contracts wo
 as added attribute lines.  A line map from unit line -> origin is kept so verifier
 messages are reported against /repo file:line or the sidecar clause.
 """
-import json, os, re, subprocess, hashlib
+import json, os, re, subprocess, hashlib, tempfile, shutil
 
 VERIF = os.path.dirname(os.path.dirname(os.path.abspath(__file__)))
 REPO = os.environ.get("VX_REPO", "/repo")
@@ -211,11 +211,26 @@ def extract(relfile):
         return _extract_cache[key]
     if not os.path.exists(EXTRACT):
         raise Undecided("vx-extract not built (run MANIFEST.setup_cmd)")
-    p = subprocess.run([EXTRACT, full], capture_output=True, text=True)
+    # R18 pre-pass (source to source, line-preserving): split `for .. in A.chain(B)` loops in two
+    raw = open(full, "rb").read()
+    pre = subprocess.run([EXTRACT, "--pre", full], capture_output=True)
+    if pre.returncode != 0:
+        raise Undecided("vx-extract --pre failed on %s: %s" % (relfile, pre.stderr.decode().strip()))
+    target = full
+    tmpdir = None
+    if pre.stdout != raw:
+        tmpdir = tempfile.mkdtemp(prefix="vxpre")
+        target = os.path.join(tmpdir, os.path.basename(full))
+        open(target, "wb").write(pre.stdout)
+    try:
+        p = subprocess.run([EXTRACT, target], capture_output=True, text=True)
+    finally:
+        if tmpdir:
+            shutil.rmtree(tmpdir, ignore_errors=True)
     if p.returncode != 0:
         raise Undecided("vx-extract failed on %s: %s" % (relfile, p.stderr.strip()))
     d = json.loads(p.stdout)
-    d["src"] = open(full, "rb").read()
+    d["src"] = pre.stdout
     _extract_cache[key] = d
     return d
 
